@@ -13,6 +13,10 @@ from . import rsrc
 sys.setrecursionlimit(20000)
 
 
+LIBC_CONSTS = {'libc::SIG_DFL': (0, 64, False), 'libc::SIG_IGN': (1, 64, False), 'libc::SIGHUP': (1, 32, True), 'libc::SIGINT': (2, 32, True),
+               'libc::SIGQUIT': (3, 32, True), 'libc::SIGTERM': (15, 32, True), 'libc::SIGKILL': (9, 32, True), 'libc::SIGPIPE': (13, 32, True)}
+
+
 class Inconclusive(Exception):
     """solver unknown / budget exhausted -> exit 2"""
 
@@ -829,6 +833,9 @@ class Path:
                 cand = r[1] + '::' + m.group(2)
                 if Mx.mir.has(cand):
                     return self.run_fn(Mx.mir.get(cand), [])
+        if p in LIBC_CONSTS:
+            v, w, sg = LIBC_CONSTS[p]
+            return Sc(v, w, sg)
         m = re.fullmatch(r'(?:core|std)::num::<impl ([iu](?:8|16|32|64|128|size))>::(MAX|MIN|BITS)', path)
         if not m:
             m = re.fullmatch(r'(?:std::|core::)?([iu](?:8|16|32|64|128|size))::(MAX|MIN|BITS)', p)
